@@ -222,6 +222,12 @@ Expect model(const Config &cfg, const std::vector<std::string> &argv, bool readl
 		if (!nostdlib) sp.argv.insert(sp.argv.end(), cfg.startfiles.begin(), cfg.startfiles.end());
 		for (size_t k = 0; k < inputs.size(); k++) {
 			if (inputs[k].type == T_LIB) { sp.argv.push_back("-l"); sp.argv.push_back(inputs[k].name); continue; }
+			{
+				// an input whose type does not imply the link stage (a C header) goes through no stage at all here
+				bool links = false;
+				for (int s2 : stages_of(inputs[k].type)) if (s2 == LINK) links = true;
+				if (!links) continue;
+			}
 			std::string nm = inputs[k].type == T_OBJ ? inputs[k].name : std::string("\x01T") + std::to_string(k);
 			sp.argv.push_back(nm);
 			ex.link_objs.push_back(nm);
